@@ -18,7 +18,9 @@ class RemoveDebug(SuiteTransformer):
 
     def constant_value(self, node):
         if sys.version_info < (3, 4):
-            return isinstance(node, ast.Name) and node.id == 'True'
+            if isinstance(node, ast.Name) and node.id in ('True', 'False'):
+                return node.id == 'True'
+            return None
         elif is_constant_node(node, ast.NameConstant):
             return node.value
         return None
